@@ -1,7 +1,7 @@
 ---------------------------- MODULE DCMotorTrace ----------------------------
 EXTENDS DCMotor, Json, IOUtils
 Traces == JsonDeserialize(IOEnv.TRACE_FILE)  \* [{id, side, ev: [{act, a, speed, inv, mode, applied, wave, res}...]}...]
-VARIABLES tid, l, bad
+VARIABLES tid, l, bad, known
 T == Traces[tid]
 InvDiff(sd, t, r, k) ==
     LET tol == IF sd = "host" THEN 0 ELSE 1 IN
@@ -11,21 +11,22 @@ InvDiff(sd, t, r, k) ==
     ELSE IF sd = "host" /\ t.applied = 0 /\ r = "ok" /\ ((t.mode = "brake") # (k.act \in {"stop", "run_for"})) THEN "inv-mode-brake-coast"
     ELSE IF t.mode \notin {"drive", "coast", "brake"} THEN "inv-mode-name"
     ELSE ""
-TInit == /\ tid \in 1..Len(Traces) /\ l = 1 /\ bad = ""
+TInit == /\ tid \in 1..Len(Traces) /\ l = 1 /\ bad = "" /\ known = {}
          /\ side = Traces[tid].side /\ speed = 0 /\ inv = FALSE /\ mode = "coast" /\ applied = 0
          /\ wave = WStart(<<"coast", 0>>) /\ res = "init" /\ last = NoCall
 TNext == /\ bad = "" /\ l <= Len(T.ev)
          /\ LET e == T.ev[l]
                 c == Call(e.act, e.a)
                 t == St(e.speed, e.inv, e.mode, e.applied)
-                d == IF e.act = "init" THEN (IF t = St(0, FALSE, "coast", 0) THEN "" ELSE "initial-state")
-                     ELSE StepDiff(side, Cur, c, t, e.wave, e.res)
+                d0 == IF e.act = "init" THEN (IF t = St(0, FALSE, "coast", 0) THEN "" ELSE "initial-state")
+                      ELSE StepDiff(side, Cur, c, t, e.wave, e.res)
+                kn == d0 # "" /\ side = "fw" /\ e.act # "init" /\ KnownTinyMode(Cur, c, t, e.wave, e.res)
+                d == IF kn THEN "" ELSE d0
             IN /\ speed' = e.speed /\ inv' = e.inv /\ mode' = e.mode /\ applied' = e.applied
                /\ wave' = e.wave /\ res' = e.res /\ last' = c
-               /\ bad' = IF d # "" THEN (IF d = "getter-mode" /\ TinyDrive(PostOf(Cur, c)) THEN "getter-mode:tiny-drive" ELSE d)
-                         ELSE IF e.act = "init" THEN "" ELSE InvDiff(side, t, e.res, c)
+               /\ known' = IF kn THEN known \cup {"motor-tiny-speed-mode"} ELSE known
+               /\ bad' = IF d # "" THEN d ELSE IF e.act = "init" THEN "" ELSE InvDiff(side, t, e.res, c)
          /\ l' = l + 1 /\ UNCHANGED <<tid, side>>
 Done == bad # "" \/ l > Len(T.ev)
-(* tiny: the rejected call is one whose specified outcome drives the motor too slowly for a non-zero PWM count *)
-Verdict == Done => PrintT(ToJson([id |-> T.id, ok |-> bad = "", l |-> l - 1, clause |-> bad]))
+Verdict == Done => PrintT(ToJson([id |-> T.id, ok |-> bad = "", l |-> l - 1, clause |-> bad, known |-> known]))
 =============================================================================
